@@ -48,6 +48,73 @@ def _run_case(args):
   return res
 
 
+def _child(conn, job):
+  try:
+    r = _run_case(job)
+  except BaseException as e:  # noqa
+    r = new_result("case#%d" % job[1])
+    r["harness_errors"].append("%s: %s" % (type(e).__name__, e))
+  try:
+    conn.send(r)
+  except Exception as e:
+    rr = new_result(r.get("case", "case#%d" % job[1]))
+    rr["harness_errors"].append("result could not be sent: %s" % e)
+    conn.send(rr)
+  conn.close()
+
+
+def run_jobs(jobs, njobs, case_timeout, names, verbose=False):
+  """One forked process per case, at most njobs at a time, each under a hard
+  wall-clock limit (a case that exceeds it is killed and reported inconclusive;
+  a case process that dies is reported as a harness error)."""
+  ctx = multiprocessing.get_context("fork")
+  pending = list(zip(jobs, names))
+  running = []   # (proc, conn, job, name, t0)
+  results = []
+  while pending or running:
+    while pending and len(running) < max(1, njobs):
+      job, name = pending.pop(0)
+      pc, cc = ctx.Pipe(duplex=False)
+      pr = ctx.Process(target=_child, args=(cc, job))
+      pr.daemon = True
+      pr.start()
+      cc.close()
+      running.append((pr, pc, job, name, time.time()))
+    still = []
+    for (pr, pc, job, name, t0) in running:
+      r = None
+      if pc.poll(0):
+        try:
+          r = pc.recv()
+        except EOFError:
+          r = new_result(name)
+          r["harness_errors"].append("case process died without a result (exit code %s)" % pr.exitcode)
+        pr.join(5)
+      elif not pr.is_alive():
+        pr.join()
+        r = new_result(name)
+        r["harness_errors"].append("case process died without a result (exit code %s)" % pr.exitcode)
+      elif time.time() - t0 > case_timeout:
+        pr.kill()
+        pr.join()
+        r = new_result(name)
+        r["inconclusive"].append("case exceeded its wall-clock limit of %ds and was stopped" % case_timeout)
+        r["wall_s"] = time.time() - t0
+      if r is None:
+        still.append((pr, pc, job, name, t0))
+      else:
+        r.setdefault("wall_s", time.time() - t0)
+        results.append(r)
+        if verbose:
+          print("  case %-50s paths=%d vcs=%d unsat=%d sat=%d unknown=%d %.1fs" % (
+            r["case"], r["paths"], r["vcs"], r["unsat"], r["sat"], r["unknown"], r.get("wall_s", 0)))
+          sys.stdout.flush()
+    running = still
+    if running:
+      time.sleep(0.02)
+  return results
+
+
 def load_known():
   p = os.path.join(HERE, "known_findings.json")
   if not os.path.exists(p):
@@ -88,18 +155,9 @@ def main(argv=None):
     import random
     random.Random(seed).shuffle(idxs)
   jobs = [(modname, i, tier, seed) for i in idxs]
-  results = []
-  if a.jobs <= 1 or len(jobs) <= 1:
-    for j in jobs:
-      results.append(_run_case(j))
-  else:
-    ctx = multiprocessing.get_context("fork")
-    with ctx.Pool(min(a.jobs, len(jobs)), maxtasksperchild=1) as pool:
-      for r in pool.imap_unordered(_run_case, jobs, chunksize=1):
-        results.append(r)
-        if a.v:
-          print("  case %-50s paths=%d vcs=%d unsat=%d sat=%d unknown=%d %.1fs" % (
-            r["case"], r["paths"], r["vcs"], r["unsat"], r["sat"], r["unknown"], r.get("wall_s", 0)))
+  meta = getattr(mod, "META", {})
+  case_timeout = meta.get("case_timeout_s", {}).get(tier, 400 if tier == "quick" else 1500)
+  results = run_jobs(jobs, a.jobs, case_timeout, [cases[i].name for i in idxs], verbose=a.v)
   results.sort(key=lambda r: r["case"])
   return finish(pid, tier, seed, mod, results, time.time() - t0, verbose=a.v)
 
